@@ -250,6 +250,28 @@ func tallFamily(c *Ctx, prop string) {
 			for _, k := range []int{0, 1, 3} {
 				base := []Op{{Kind: "block", Adds: N}, {Kind: "block", Dels: S, Adds: k}}
 				runs = append(runs, run{base})
+				// then delete the first / the last leaf that is still alive (the bottom of a subtree
+				// that moved up a row)
+				if len(S) > 1 && len(S) < N {
+					dead := map[int]bool{}
+					for _, d := range S {
+						dead[d] = true
+					}
+					first, last := -1, -1
+					for x := 0; x < N; x++ {
+						if !dead[x] {
+							if first < 0 {
+								first = x
+							}
+							last = x
+						}
+					}
+					for _, t := range []int{first, last} {
+						if t >= 0 {
+							runs = append(runs, run{append(append([]Op(nil), base...), Op{Kind: "block", Dels: []int{t}})})
+						}
+					}
+				}
 				// then delete the lone survivor of a half (it climbed to the half's root row)
 				if len(S) == half-1 {
 					surv := 0
